@@ -3,6 +3,9 @@ From Coq Require Import ZArith List Bool Lia.
 From RV Require Import Lib.Wrap.
 From RV Require Import Gen.RtpBridge.
 From RV Require Import Model.Bridge.
+From RV Require Model.RtpLib.
+From RV Require Model.Rtp.
+From RV Require Proofs.RtpExtProofs.
 Import ListNotations.
 Open Scope Z_scope.
 Open Scope bool_scope.
@@ -440,65 +443,102 @@ Lemma bridge_independent : forall ins b x,
   of_src x (btrace b ins) = btrace b (filter (src_is x) ins).
 Proof. intros. apply independence_gen. unfold agree. auto. Qed.
 
-(* ------------------------------------------------------------------ MID stamping *)
-Definition bget (e : option bext) (id : Z) : option (list Z) :=
-  match e with
-  | Some (_, els) => option_map snd (find (fun el => fst el =? id) els)
-  | None => None
-  end.
+(* ------------------------------------------------------------------ MID stamping (byte level, C15's laws) *)
+Lemma get_extension_ext_only : forall h1 h2 id,
+  Rtp.h_ext h1 = Rtp.h_ext h2 -> Rtp.get_extension h1 id = Rtp.get_extension h2 id.
+Proof. intros h1 h2 id H. unfold Rtp.get_extension. rewrite H. reflexivity. Qed.
 
-Lemma find_replace : forall els id (mid : list Z),
-  existsb (fun el : Z * list Z => fst el =? id) els = true ->
-  find (fun el => fst el =? id) (map (fun el => if fst el =? id then (id, mid) else el) els) = Some (id, mid).
+Lemma h_ext_hdr_of_ext_of : forall q h, q_ext q = ext_of h -> Rtp.h_ext (hdr_of q) = Rtp.h_ext h.
 Proof.
-  induction els as [|el els IH]; intros id mid H; cbn in H; [discriminate|].
-  cbn [map find]. destruct (fst el =? id) eqn:E.
-  - cbn [fst]. rewrite Z.eqb_refl. reflexivity.
-  - rewrite E. cbn in H. apply IH. exact H.
-Qed.
-
-Lemma find_append : forall els id (mid : list Z),
-  existsb (fun el : Z * list Z => fst el =? id) els = false ->
-  find (fun el => fst el =? id) (els ++ [(id, mid)]) = Some (id, mid).
-Proof.
-  induction els as [|el els IH]; intros id mid H; cbn in H.
-  - cbn. rewrite Z.eqb_refl. reflexivity.
-  - apply orb_false_iff in H. destruct H as [H1 H2]. cbn [app find]. rewrite H1. apply IH. exact H2.
-Qed.
-
-Lemma stamp_get : forall id mid e,
-  0 < id < 15 -> (1 <= length mid <= 16)%nat ->
-  (forall prof els, e = Some (prof, els) -> prof = 48862) ->
-  bget (stamp id mid e) id = Some mid.
-Proof.
-  intros id mid e Hid Hlen Hp. unfold stamp.
-  change ext_id_min_invalid with 0. change ext_id_limit with 15. change ext_data_max with 16.
-  change ext_profile_one_byte with 48862.
-  assert (E1 : (id =? 0) || (15 <=? id) = false).
-  { apply orb_false_iff. split; [apply Z.eqb_neq|apply Z.leb_gt]; lia. }
-  assert (E2 : (16 <? zlen mid) || (zlen mid =? 0) = false).
-  { unfold zlen. apply orb_false_iff. split; [apply Z.ltb_ge|apply Z.eqb_neq]; lia. }
-  rewrite E1, E2. destruct e as [[prof els]|].
-  - rewrite (Hp prof els eq_refl). rewrite Z.eqb_refl. cbn [bget].
-    destruct (existsb (fun el => fst el =? id) els) eqn:X.
-    + rewrite find_replace; auto.
-    + rewrite find_append; auto.
-  - cbn. rewrite Z.eqb_refl. reflexivity.
+  intros q h H. unfold hdr_of. cbn [Rtp.h_ext]. rewrite H. unfold ext_of.
+  destruct (Rtp.h_ext h) as [[prof d]|]; reflexivity.
 Qed.
 
 Lemma bridge_mid_stamped : forall b i ss r id mid,
   o_strip (b_opts b) = false -> rule_for (b_rules b) (q_pt (i_pkt i)) = Some r ->
   mid_ext_id r = Some id -> mid_val r = Some mid ->
-  0 < id < 15 -> (1 <= length mid <= 16)%nat ->
-  (forall prof els, q_ext (i_pkt i) = Some (prof, els) -> prof = 48862) ->
-  bget (q_ext (out_pkt b i ss)) id = Some mid.
+  1 <= id <= 14 -> 1 <= RtpLib.len mid <= 16 ->
+  (forall prof d, q_ext (i_pkt i) = Some (prof, d) -> prof = 48862) ->
+  Rtp.get_extension (hdr_of (out_pkt b i ss)) id = RtpLib.Ok (Some mid).
 Proof.
   intros b i ss r id mid Hs Hr Hi Hm Hid Hlen Hp.
-  cbn [out_pkt q_ext]. unfold out_ext. rewrite Hs, Hr, Hi, Hm. apply stamp_get; auto.
+  assert (A : RtpExtProofs.set_args_ok (hdr_of (i_pkt i)) id mid).
+  { unfold RtpExtProofs.set_args_ok. split; auto. split; auto.
+    unfold hdr_of. cbn [Rtp.h_ext]. destruct (q_ext (i_pkt i)) as [[prof d]|] eqn:E; auto.
+    cbn [Rtp.x_profile]. apply (Hp prof d). reflexivity. }
+  destruct (RtpExtProofs.set_extension_shape _ _ _ A) as (elems & found & nd & _ & _ & Heq).
+  remember (Rtp.set_header_ext (hdr_of (i_pkt i)) _) as h' eqn:Eh in Heq.
+  assert (G : Rtp.get_extension h' id = RtpLib.Ok (Some mid)).
+  { eapply RtpExtProofs.set_then_get; eauto. }
+  rewrite <- G. apply get_extension_ext_only. apply h_ext_hdr_of_ext_of.
+  cbn [out_pkt q_ext]. unfold out_ext. rewrite Hs, Hr, Hi, Hm. unfold stamp. rewrite Heq. reflexivity.
+Qed.
+
+(* a two-byte (or any other non-0xBEDE) block is forwarded untouched *)
+Lemma bridge_mid_other_profile : forall b i ss prof d,
+  q_ext (i_pkt i) = Some (prof, d) -> prof <> 48862 -> o_strip (b_opts b) = false ->
+  q_ext (out_pkt b i ss) = Some (prof, d).
+Proof.
+  intros b i ss prof d He Hp Hs. cbn [out_pkt q_ext]. unfold out_ext. rewrite Hs.
+  destruct (rule_for (b_rules b) (q_pt (i_pkt i))) as [r|]; auto.
+  destruct (mid_ext_id r) as [id|]; auto. destruct (mid_val r) as [mid|]; auto.
+  unfold stamp. rewrite (RtpExtProofs.set_extension_refuses_other_profiles (hdr_of (i_pkt i)) (Rtp.mkExt prof d) id mid).
+  - exact He.
+  - unfold hdr_of. cbn [Rtp.h_ext]. rewrite He. reflexivity.
+  - exact Hp.
 Qed.
 
 Lemma bridge_strip : forall b i ss, o_strip (b_opts b) = true -> q_ext (out_pkt b i ss) = None.
 Proof. intros b i ss H. cbn [out_pkt q_ext]. unfold out_ext. rewrite H. reflexivity. Qed.
+
+(* stamping never panics, whatever block was received *)
+Lemma stamp_total : forall id mid q, Rtp.set_extension (hdr_of q) id mid <> RtpLib.Panic.
+Proof. intros. apply RtpExtProofs.set_extension_no_panic. Qed.
+
+(* ------------------------------------------------------------------ transport level *)
+(* a packet that fails the source's SRTP unprotect / parse touches nothing *)
+Lemma unauth_inert : forall s i, tstep s (BPkt i false) = (s, Rejected).
+Proof. reflexivity. Qed.
+
+(* no bridge: the packet goes on to the listeners, nothing is forwarded *)
+Lemma no_bridge_to_listeners : forall s i, t_bridge s = None -> tstep s (BPkt i true) = (s, ToListeners).
+Proof. intros s i H. cbn. rewrite H. reflexivity. Qed.
+
+(* with SRTP-capable or plain targets every authenticated packet is forwarded, and what is
+   forwarded (the plaintext) does not depend on whether the target protects it *)
+Lemma srtp_transparent : forall s b i,
+  t_bridge s = Some b -> t_main s <> TNeedSrtp -> t_video s <> TNeedSrtp ->
+  snd (tstep s (BPkt i true)) = Forwarded (is_video b (q_pt (i_pkt i))) (snd (bstep b i)).
+Proof.
+  intros s b i Hb Hm Hv. cbn. rewrite Hb. cbn [snd].
+  destruct (is_video b (q_pt (i_pkt i))); [destruct (t_video s)|destruct (t_main s)]; congruence.
+Qed.
+
+(* as long as the bridge is neither replaced nor cleared, the packets it rewrites are exactly the
+   trace of that bridge on the authenticated arrivals -- also those a target without SRTP session
+   swallowed (their sequence numbers are used up) *)
+Lemma rewritten_trace : forall ops b m v,
+  Forall (fun o => keeps_bridge o = true) ops ->
+  rewritten (trun (mkT (Some b) m v) ops) = map snd (btrace b (auth_ins ops)).
+Proof.
+  induction ops as [|o ops IH]; intros b m v F; [reflexivity|].
+  inversion F as [|? ? K F']; subst. destruct o; cbn in K; try discriminate.
+  - cbn [trun tstep fst snd rewritten auth_ins]. destruct video; cbn [t_bridge t_main t_video]; apply IH; exact F'.
+  - destruct auth.
+    + cbn [trun tstep negb t_bridge fst snd auth_ins btrace map t_main t_video].
+      destruct (match (if is_video b (q_pt (i_pkt i)) then v else m) with TNeedSrtp => _ | _ => _ end) eqn:E;
+        destruct (if is_video b (q_pt (i_pkt i)) then v else m); try discriminate;
+        inversion E; subst; cbn [rewritten]; f_equal; apply IH; exact F'.
+    + cbn [trun tstep negb fst snd rewritten auth_ins]. apply IH. exact F'.
+Qed.
+
+(* (re-)installing a bridge resets every per-source state: what follows is the trace of a bridge
+   that has never seen a packet *)
+Lemma reinstall_resets : forall s b ops,
+  Forall (fun o => keeps_bridge o = true) ops ->
+  rewritten (trun (fst (tstep s (BSet b))) ops) = map snd (btrace (fresh_bridge b) (auth_ins ops)) /\
+  forall x, sget (b_streams (fresh_bridge b)) x = None.
+Proof. intros s b ops F. split; [apply rewritten_trace; exact F|reflexivity]. Qed.
 
 (* ------------------------------------------------------------------ premises are satisfiable *)
 Definition ex_bridge : bridge :=
